@@ -53,6 +53,10 @@ def check(ctx):
 
 
 def check_config(ctx, F, tag):
+    # "the vector built from the builder reports the accepted positions": From<RLBuilder> ends in SampleIndex::new, whose table the
+    # queries of the built vector narrow their search with
+    import rltables
+    rltables.check_every_slot_written(ctx, F, tag, "C16.R5.rl")
     # ---------------- R1 Err paths are pure
     for fn in (SB + "::try_set", RB + "::try_set"):
         b = F.body(fn)
